@@ -5,6 +5,7 @@ package app
 // Exported wrappers used only by the verification harness (/verif). Add-only, compiled with -tags verif.
 
 import (
+	"encoding/hex"
 	"fmt"
 	"math"
 	"sort"
@@ -242,4 +243,36 @@ func dashIfEmpty(s string) string {
 		return "-"
 	}
 	return s
+}
+
+// VerifKidFromString wraps kidFromString (hex).
+func VerifKidFromString(s string) string { k := kidFromString(s); return hex.EncodeToString(k[:]) }
+
+// VerifKidToKey wraps kidToKey; ok is false when it panics.
+func VerifKidToKey(kid [16]byte) (key [16]byte, ok bool) {
+	defer func() {
+		if r := recover(); r != nil {
+			ok = false
+		}
+	}()
+	return kidToKey(id16(kid)), true
+}
+
+// VerifKeyToKid wraps keyToKid; ok is false when it panics.
+func VerifKeyToKid(key [16]byte) (kid [16]byte, ok bool) {
+	defer func() {
+		if r := recover(); r != nil {
+			ok = false
+		}
+	}()
+	return keyToKid(id16(key)), true
+}
+
+// VerifPackBase64 wraps id16.PackBase64.
+func VerifPackBase64(k [16]byte) string { return id16(k).PackBase64() }
+
+// VerifUnpackBase64 wraps unpackBase64 + id16FromBase64 as the licence handler applies them.
+func VerifUnpackBase64(s string) (k [16]byte, err error) {
+	v, err := id16FromBase64(unpackBase64(s))
+	return [16]byte(v), err
 }
